@@ -33,7 +33,7 @@ def gen_case(rng, params, index):
     if kind == "general":
         c = qtcheck.gen_doc_case(rng, "mixed", params["histories"], rng.randint(10, params["events"]))
         c["c16_kind"] = kind
-        return c
+        return _with_write_fault(c, rng)
     doc = {"cascade": gen.doc_cascade, "observers": gen.doc_observers, "names": gen.doc_names, "literals": gen.doc_literals,
            "operators": gen.doc_operators, "facilities": gen.doc_facilities}[kind](r2, tn)
     hists = []
@@ -46,7 +46,14 @@ def gen_case(rng, params, index):
             hists.append({"init": {"lines": il, "ops": io}, "groups": groups})
         except Exception as e:
             errs.append("history %d: %s" % (k, e))
-    return qtcheck.add_predecessor({"kind": "qtdoc", "c16_kind": kind, "profile": "bindings", "doc": doc, "histories": hists, "gen_errors": errs}, rng)
+    return _with_write_fault(qtcheck.add_predecessor({"kind": "qtdoc", "c16_kind": kind, "profile": "bindings", "doc": doc, "histories": hists, "gen_errors": errs}, rng), rng)
+
+
+def _with_write_fault(case, rng):
+    r = rng.fork("wfault")
+    if r.chance(0.3):
+        case["wfault"] = [r.randint(0, 1 << 20), r.choice(["ENOSPC", "EIO", "EDQUOT", "SHORT_THEN_ENOSPC"]), r.randint(1, 4096)]
+    return case
 
 
 def run_case(case, env):
